@@ -106,6 +106,16 @@ CHECKS = {
          "TLC, the concretiser, runtime.MemStats.",
     technique="TLA+ input automaton -> TLC-enumerated class paths -> real sessions in child processes; TLC validates outcomes",
     design="4 C03"),
+ "C17": dict(
+    level="model_checking",
+    text="Status.tla models session and reporter goroutines with vector clocks: TLC shows the communicated-count design race-free and "
+         "well-formed over all interleavings and finds the race in the shared-buffer design. Binding: two-station sessions built with "
+         "-race, recording StatusUpdaters, transports paced so that 0, 1 or many reporting periods fall inside a transfer, with and "
+         "without TxBufferLen/Flush, sizes from one chunk to ~100 KB; race reports and every Status report are validated by TLC "
+         "against StatusProps.tla (range, proposal, total, exactly one Done, nothing after it).",
+    note="The race detector only sees executed interleavings. Trusted: TLC, Go race detector, recorder order.",
+    technique="TLA+ vector-clock model (design) + race-detector runs and TLC validation of recorded status reports",
+    design="4 C17"),
 }
 
 NOT_YET = "check not built yet (work in progress; see DESIGN.md section 8 for the build order)"
